@@ -22,6 +22,18 @@ class Single(object):
     self.reg = stubs.Registry()
     self.reg.default_open = params.get('open_mode', 'ok')
     self.reg.reopen_ok = False
+    if params.get('busy'):
+      # an underlying sink that reports Busy (part of the ChannelState vocabulary: open, one request outstanding) while it carries a request
+      from scales.constants import ChannelState
+      world_self = self
+      base_state = self.reg.cls.state
+
+      def state(ch):
+        st = base_state.fget(ch)
+        if st == ChannelState.Open and any(r['serial'] == ch.serial and not r['done'] for r in world_self.reqs):
+          return ChannelState.Busy
+        return st
+      self.reg.cls.state = property(state)
     b = SingletonPoolSink.Builder()
     b.next_provider = stubs.StubProvider(self.reg)
     self.pool = b.CreateSink({SinkProperties.Endpoint: stubs.make_endpoint(0), SinkProperties.Label: 'svc'})
@@ -419,6 +431,8 @@ CONFIGS = {
   'quick': [
     ('singleton immediate opens', {'which': 'singleton', 'max_opens': 2, 'surplus': 0, 'max_reqs': 3, 'max_faults': 2}, 8),
     ('singleton pending opens', {'which': 'singleton', 'max_opens': 1, 'surplus': 0, 'max_reqs': 3, 'max_faults': 1, 'open_mode': 'pending'}, 8),
+    ('singleton over a sink that reports Busy while it carries a request', {'which': 'singleton', 'max_opens': 1, 'surplus': 0, 'max_reqs': 3,
+                                                                            'max_faults': 1, 'busy': True}, 7),
     ('refcount 3 holders', {'which': 'refcount', 'holders': 3}, 8),
     ('shared provider 3 keys', {'which': 'shared', 'max_refs': 4}, 8),
     ('refcount over a sink whose Close yields', {'which': 'refcount-yield', 'max_preempt': 2}, 7),
@@ -426,6 +440,8 @@ CONFIGS = {
   'thorough': [
     ('singleton immediate opens', {'which': 'singleton', 'max_opens': 2, 'surplus': 1, 'max_reqs': 4, 'max_faults': 2}, 10),
     ('singleton pending opens', {'which': 'singleton', 'max_opens': 2, 'surplus': 0, 'max_reqs': 4, 'max_faults': 2, 'open_mode': 'pending'}, 10),
+    ('singleton over a sink that reports Busy while it carries a request', {'which': 'singleton', 'max_opens': 2, 'surplus': 0, 'max_reqs': 4,
+                                                                            'max_faults': 2, 'busy': True}, 9),
     ('refcount 3 holders', {'which': 'refcount', 'holders': 3}, 10),
     ('shared provider 3 keys', {'which': 'shared', 'max_refs': 5}, 10),
     ('refcount over a sink whose Close yields', {'which': 'refcount-yield', 'max_preempt': 3, 'close_yields': 3}, 9),
